@@ -274,6 +274,14 @@ struct World {
         return d;
     }
 
+    // Forked processes share T's datadir on disk; an on-disk snapshot chainstate (in_memory=false) needs a private one.
+    void PrivateDatadir()
+    {
+        fs::path d = scratch / fs::u8path(strprintf("d%d", (int)getpid()));
+        fs::create_directories(d);
+        const_cast<fs::path&>(T.chainman().m_options.datadir) = d;
+    }
+
     enum Res { META_FAIL, ACT_FAIL, ACTIVATED };
     // the loadtxoutset sequence on a file
     Res Attempt(const Bytes& file, bool in_memory, std::string* why = nullptr)
@@ -481,10 +489,15 @@ static int Run()
     auto in_fork = [&](fp::Out& out, const std::string& what, const std::function<void()>& fn) {
         out.flush();
         fflush(stdout);
-        if (ck::ThreadCount() != 1) { out.count("harness_not_single_threaded"); return; } // fork would be unsound
+        if (ck::ThreadCount() != 1) {
+            if (getenv("C20_DEBUG_THREADS")) { std::string cmd = "for t in /proc/" + std::to_string(getpid()) + "/task/*; do cat $t/comm; done 1>&2; gdb -p " + std::to_string(getpid()) + " -batch -ex 'thread apply all bt 8' 2>/dev/null | grep '^#' | cut -c1-140 1>&2"; (void)!system(cmd.c_str()); }
+            out.count("harness_not_single_threaded");
+            return; // fork would be unsound
+        }
         pid_t g = fork();
         if (g < 0) throw std::runtime_error("C20: fork failed");
         if (g == 0) {
+            w.PrivateDatadir();
             fn();
             out.send_counts();
             out.flush();
@@ -519,7 +532,12 @@ static int Run()
 
     // ---------------------------------------------------------------- enumerated corruptions
     std::vector<Case> cases;      // explicit files
-    StructuredCases(w, cases, /*all_coins=*/big);
+    StructuredCases(w, cases, /*all_coins=*/false);                // on-disk snapshot chainstate, each in its own fork
+    if (big) {
+        std::vector<Case> mem;
+        StructuredCases(w, mem, /*all_coins=*/true);               // in-memory, sequential
+        for (auto& c : mem) { c.in_memory = true; c.name += ":mem"; cases.push_back(std::move(c)); }
+    }
     for (int k = 1; k <= 3; k++) for (unsigned char fill : {0x00, 0xff}) { Case c{strprintf("append:%d:%02x", k, fill), s110, true}; c.file.insert(c.file.end(), k, fill); cases.push_back(c); }
     // flips and truncations are generated from their index
     std::vector<size_t> flip_offsets;
@@ -544,6 +562,7 @@ static int Run()
     {
         fp::Pool pool;
         pool.workers = 8;
+        pool.on_worker_start = [&](unsigned) { w.PrivateDatadir(); };
         pool.run((total + BATCH - 1) / BATCH, [&](uint64_t job, fp::Out& out) {
             World::State base = w.Observe();
             for (uint64_t j = job * BATCH; j < std::min(total, (job + 1) * BATCH); j++) {
@@ -552,7 +571,22 @@ static int Run()
                 const bool must_fail = w.MustFail(d);
                 out.count("cases");
                 const std::string replay = "case " + c.name + "\nfile hex: " + vx::hex(c.file).substr(0, 20000);
-                if (must_fail) {
+                if (must_fail && !c.in_memory) {
+                    // on-disk snapshot chainstate (LevelDB may start a thread): leaf process
+                    in_fork(out, c.name, [&] {
+                        std::string why;
+                        auto r = w.Attempt(c.file, false, &why);
+                        if (r == World::ACTIVATED) {
+                            out.violation("activated:" + c.name, "ActivateSnapshot succeeded for a file whose " + (d.ok ? std::string("decoded coin set / base block differs from the commitment") : "encoding is malformed (" + d.err + ")") + ": " + c.name, replay);
+                            return;
+                        }
+                        out.count(r == World::META_FAIL ? "rejected_at_metadata" : "rejected_by_activate");
+                        out.count("rejected_on_disk");
+                        out.distinct("rejected", c.name + ":disk");
+                        std::string diff = World::Diff(base, w.Observe());
+                        if (!diff.empty()) out.violation("state-changed-after-failure:edit-on-disk", "failed activation (" + why + ") changed the node:" + diff + " — case " + c.name, replay);
+                    });
+                } else if (must_fail) {
                     std::string why;
                     auto r = w.Attempt(c.file, c.in_memory, &why);
                     if (r == World::ACTIVATED) {
